@@ -1165,7 +1165,11 @@ impl<'a, 'b> Gen<'a, 'b> {
         let mut vals: Vec<UsingVal> = Vec::new();
         let mut seps: Vec<bool> = Vec::new();
         let mut c = c0;
+        let mut nonascii_last = false;
         for i in 0..want {
+            if nonascii_last {
+                break;
+            }
             let fi = i % nfields;
             let v = match fields[fi].clone() {
                 Field::Num { int_fmt, dec } => self.using_number(&int_fmt, dec),
@@ -1178,8 +1182,15 @@ impl<'a, 'b> Gen<'a, 'b> {
                 }
                 Field::Bang => {
                     let n = 1 + self.t.choose(8);
-                    let b = self.chars(n);
-                    let out = vec![b[0]];
+                    let mut b = self.chars(n);
+                    let mut out = vec![b[0]];
+                    if self.t.chance(1, 6) {
+                        // a first character above 127: the field shows that character (the statement says nothing about its
+                        // width in columns, so nothing follows it in this statement)
+                        b[0] = *self.t.pick(&[0xE9u8, 0xC9, 0xD8, 0xDF]);
+                        out = (b[0] as char).to_string().into_bytes();
+                        nonascii_last = true;
+                    }
                     let sv = self.string_val(b);
                     UsingVal { src: sv.src, pre: sv.pre, out, defect_out: None, tie_even_out: None, zero_alt: None, tie: 0, negative: false }
                 }
@@ -1220,7 +1231,7 @@ impl<'a, 'b> Gen<'a, 'b> {
         let last = (vals.len() - 1) % nfields;
         let cut_with_tail = last != nfields - 1 && !lits[last + 1].is_empty();
         let mut trailing = Sep::None;
-        if !cut_with_tail && self.t.chance(1, 3) {
+        if !cut_with_tail && !nonascii_last && self.t.chance(1, 3) {
             trailing = Sep::Semi;
             if sep_mode > 0 && self.t.chance(1, 2) && c / ZONE * ZONE + ZONE <= LAST_ZONE_START {
                 trailing = Sep::Comma;
